@@ -1,5 +1,6 @@
 import SFV.Proofs.GaussNM
 import SFV.Proofs.FockTensor
+import SFV.Proofs.Bosonic
 import Mathlib.Tactic.IntervalCases
 
 /-!
@@ -71,7 +72,18 @@ theorem fock_project_reset_vacuum {K : Type} [Zero K] (modes xs : List Nat) (ψ 
   simp at this
   exact h this
 
+/-- **bosonic simulator**: whatever `(X, Y)` is expanded from the target modes (`expandXY`/`expandS`,
+then the `from_xp` permutation of `update_means`/`update_covs`), the means and covariances of every
+component restricted to non-target modes are unchanged — all register sizes, target lists, blocks -/
+theorem bosonic_spectators {K : Type} [Semiring K] (n : Nat) (hn : 0 < n) (modes : List Nat)
+    (S Y : Nat → Nat → K) (μ : Nat → K) (V : Nat → Nat → K) {r s : Nat} (hr : r < 2 * n) (hs : s < 2 * n)
+    (hr' : ¬ (r / 2) ∈ modes) (hs' : ¬ (s / 2) ∈ modes) :
+    Bos.updateMeans n (Bos.expand n modes S) μ r = μ r ∧
+    Bos.updateCovs n (Bos.expand n modes S) (Bos.expandY n modes Y) V r s = V r s :=
+  ⟨Bos.updateMeans_spectator n hn modes S μ hr hr', Bos.updateCovs_spectator n hn modes S Y V hr hs hr' hs'⟩
+
 /-! ### non-vacuity -/
+example : (4 : Nat) < 2 * 3 ∧ ¬ (4 / 2) ∈ [0, 1] := by decide
 example : ∀ op ∈ ([.bs 0 1 (3/5) (4/5) 3 1, .loss (1/2) 1] : List (GOp Rat)), ∀ x ∈ op.targets, x ∈ [1, 3] := by
   intro op h; simp at h; rcases h with rfl | rfl <;> simp [GOp.targets]
 /-- the bit-flip matrix on cutoff 2 is an isometry in the sense of `fock_trace_local` -/
